@@ -392,6 +392,14 @@ Definition xspec_select (xo : xobs) (m : xmasks) (xkw : xkwargs) : outcome * xma
     end
   end.
 
+(* the dimensions the spec starts afresh in this call (T, F, B) *)
+Definition xspec_dims (xo : xobs) (m : xmasks) (xkw : xkwargs) : list bool :=
+  let kw := elab_kw (x_vocab xo) xkw in
+  match atom_of (xm_spw m) (lookup "spw" kw), atom_of (xm_sub m) (lookup "subarray" kw) with
+  | Some spw, Some sub => map (xspec_reset kw (negb (spw =? xm_spw m)) (negb (sub =? xm_sub m))) [DT; DF; DB]
+  | _, _ => [false; false; false]
+  end.
+
 (* ------------------------------------------------------------------------------------------------ *)
 (* Wire                                                                                               *)
 
@@ -456,6 +464,15 @@ Definition of_xst (s : xst) : list sx :=
    I (x_spw s); I (x_sub s); of_pub (x_pub s)].
 Definition of_xmasks (m : xmasks) : list sx :=
   [of_bools (m_t (xm_masks m)); of_bools (m_f (xm_masks m)); of_bools (m_b (xm_masks m)); I (xm_spw m); I (xm_sub m)].
+(* the public attributes implied by the masks the spec demands *)
+Definition spec_pub (xo : xobs) (m : xmasks) : pubattrs :=
+  match py_nth (x_spws xo) (xm_spw m), py_nth (x_subs xo) (xm_sub m) with
+  | Some w, Some sa =>
+      pub_of (view_of xo w sa) sa
+             {| tk := m_t (xm_masks m); fk := m_f (xm_masks m); bk := m_b (xm_masks m); sel := [];
+                wk := VAtom 0; flk := VAtom 0 |}
+  | _, _ => pub_empty
+  end.
 
 (* a history of calls from the constructor's state: after EVERY call (also a failed one) the outcome and the
    state left behind by the model, and the outcome and masks demanded by the spec from the state before the call *)
@@ -465,7 +482,9 @@ Fixpoint xrun_history (xo : xobs) (s : xst) (calls : list xkwargs) : list sx :=
   | c :: rest =>
       let r := xselect xo s c in
       let sp := xspec_select xo (xm_of s) c in
-      L [L (of_outcome (fst r) :: of_xst (snd r)); L (of_outcome (fst sp) :: of_xmasks (snd sp))]
+      L [L (of_outcome (fst r) :: of_xst (snd r));
+         L (of_outcome (fst sp) :: of_xmasks (snd sp) ++ [of_pub (spec_pub xo (snd sp));
+                                                          of_bools (xspec_dims xo (xm_of s) c)])]
       :: xrun_history xo (snd r) rest
   end.
 
